@@ -321,6 +321,15 @@ def walk (bt : List Builtin) (F : Facts) (v2 : Bool) : Nat → U → Nat → Opt
       | some (K, kids) => fill bt w u (useName.getD (nameOf v2 (F.str g))) g gn K kids
       | none => none
 
+/-- the name a node is registered under: its printed name, except for a generic declaration that v2 files under
+`Foo[T]` (the declared name with its type parameter names) -/
+def regName (F : Facts) (v2 : Bool) (c : Nat) : Name :=
+  match F.node c with
+  | .named und _ tps _ =>
+    if isAliasUnder (F.node und) = false ∧ (v2 && isStructOrIface (F.node und)) = true ∧ tps.isEmpty = false
+    then genericName (nameOf v2 (F.str c)) tps else nameOf v2 (F.str c)
+  | _ => nameOf v2 (F.str c)
+
 /-! ## declarations and packages -/
 
 /-- `tcFuncNameToName`: strip `func `, take the text before the first `(` -/
